@@ -181,7 +181,10 @@ def generate(ctx):
             k = rng.randint(0, min(len(residues), 30))
             ops = ([["in"]] + [["ix", 0]] * k + ops)[:200]
         ops = _fix_iter_ops(ops)
-        title = rng.choice(["generated system", "t= 0.0", "Gro file", "x" * 60, "a b  c"])
+        # (titles with characters that take more BYTES than characters in UTF-8: offsets into the file are byte offsets —
+        # seed C12-12: the position of the first atom line computed as a character count)
+        title = rng.choice(["generated system", "t= 0.0", "Gro file", "x" * 60, "a b  c", "líquido iónico, caja de 4 nm",
+                            "Å-scale box — 300 K"])
         case = {"kind": "sysgro", "cls": cls, "title": title, "vel": rng.random() < 0.5,
                 "coordseed": rng.randrange(1 << 30), "residues": residues, "ops": ops}
         if rng.random() < 0.4:
@@ -358,7 +361,8 @@ def evaluate(ctx, case):
                                                              [rb[7], rb[8], rb[2]]])
     if not np.array_equal(box_impl, want_box):
         ctx.oracle_fail("SystemGro.box_matrix", case, {"impl": box_impl, "file": raw["box"]})
-    if title_impl.rstrip("\n") != raw["title"].rstrip("\n"):
+    if title_impl.rstrip("\n") != raw["title"].rstrip("\n") and \
+            title_impl.rstrip("\n") != case["title"]:      # (raw: bytes read as latin-1; the file is written as UTF-8)
         ctx.oracle_fail("SystemGro.comment_line", case, {"impl": title_impl, "file": raw["title"]})
 
     # -- oracle: iteration tiles the file into the runs
@@ -498,7 +502,7 @@ def evaluate(ctx, case):
     # every third case of moderate size goes through the BYTE path: the model opens the very bytes of the file
     # (`sysGroOfBytes` = C13's reader composed with the view) instead of being handed the parsed records
     xcase = any(o[0] in ("o", "str", "ps", "pn", "pr") for o in ops)
-    by_bytes = len(atoms) <= 700 and _counter[0] % 3 == 0 and not xcase
+    by_bytes = len(atoms) <= 700 and _counter[0] % 3 == 0 and not xcase and case["title"].isascii()
     ctx.count("model-input:" + ("file-bytes" if by_bytes else "parsed-records"))
     if by_bytes:
         toks = f"{file_bytes.hex()} {G.tok_ops(ops)}"
